@@ -36,7 +36,7 @@ def catalogue():
         'regP1': CirclePixelRegion(PixCoord(0, 0), 1.0, meta={'label': 'member'}, visual={'color': 'cyan'}),
         'regP2': RectanglePixelRegion(PixCoord(1, 1), 2, 3),
         'regS1': CircleSkyRegion(sA, 1 * u.arcsec, meta={'label': 'member'}, visual={'color': 'cyan'}), 'regS2': RectangleSkyRegion(sB, 1 * u.deg, 2 * u.deg),
-        'tHello': 'hello', 'tEmpty': '',
+        'tHello': 'hello', 'tEmpty': '', 'tPadded': '  padded label\t ',
         'op_and': operator.and_, 'op_or': operator.or_,
     }
 
@@ -220,6 +220,9 @@ class World:
             elif a == 'copy':
                 self.slots[act['to']] = self.slots[act['slot']].copy()
                 self.clsname[act['to']] = self.clsname[act['slot']]
+                sh = shared_storage(self.slots[act['to']], self.slots[act['slot']])
+                if sh:
+                    return f'ok-but-copy-shares:{sh}'
             elif a == 'copyas':
                 src = self.slots[act['slot']]
                 new = self.cls[act['cls']](**{p: getattr(src, p) for p in src._params}, meta=src.meta.copy(), visual=src.visual.copy())
@@ -228,9 +231,15 @@ class World:
             elif a == 'copywith':
                 self.slots[act['to']] = self.slots[act['slot']].copy(**{act['field']: self.val(act['value'])})
                 self.clsname[act['to']] = self.clsname[act['slot']]
+                sh = shared_storage(self.slots[act['to']], self.slots[act['slot']], skip=(act['field'],))
+                if sh:
+                    return f'ok-but-copy-shares:{sh}'
             elif a == 'copywithdict':
                 self.slots[act['to']] = self.slots[act['slot']].copy(**{act['which']: dict_token(act['value'], act['which'])})
                 self.clsname[act['to']] = self.clsname[act['slot']]
+                sh = shared_storage(self.slots[act['to']], self.slots[act['slot']])
+                if sh:
+                    return f'ok-but-copy-shares:{sh}'
             elif a == 'discard':
                 del self.slots[act['slot']]
             else:
@@ -295,6 +304,47 @@ class World:
             heap.append({'cls': self.clsname[s] if type(o) is self.cls[self.clsname[s]] else type(o).__name__,
                          'par': par, 'meta': did(getattr(o, 'meta', '<deleted>')), 'visual': did(getattr(o, 'visual', '<deleted>'))})
         return heap, dicts
+
+
+def _arrays(v):
+    """The numpy storage behind a parameter value (Quantity, SkyCoord, PixCoord, array), as plain arrays."""
+    from astropy.coordinates import SkyCoord
+    from astropy.units import Quantity
+
+    from regions import PixCoord
+    if isinstance(v, SkyCoord):
+        return [np.asarray(v.data.lon.view(np.ndarray)), np.asarray(v.data.lat.view(np.ndarray))]
+    if isinstance(v, PixCoord):
+        return [x for x in (v.x, v.y) if isinstance(x, np.ndarray)]
+    if isinstance(v, Quantity):
+        return [v.view(np.ndarray)]
+    if isinstance(v, np.ndarray):
+        return [v]
+    return []
+
+
+def shared_storage(a, b, skip=()):
+    """Name of the first shape parameter of region `a` whose (mutable) value object or numpy storage is also that of
+    region `b`'s parameter - '' when the two regions share nothing an in-place edit could reach."""
+    from regions import Region
+    for f in a._params:
+        if f in skip or not hasattr(a, f) or not hasattr(b, f):
+            continue
+        va, vb = getattr(a, f), getattr(b, f)
+        if isinstance(va, Region):
+            if va is vb:
+                return f
+            sub = shared_storage(va, vb) if type(va) is type(vb) else ''
+            if sub:
+                return f'{f}.{sub}'
+            continue
+        if va is vb and not isinstance(va, (int, float, str, bool, type(None), np.generic)) and not callable(va):
+            return f
+        for x in _arrays(va):
+            for y in _arrays(vb):
+                if x.size and np.shares_memory(x, y):
+                    return f
+    return ''
 
 
 def model_view(heap, dicts):
